@@ -37,11 +37,12 @@ NBody == Body([n |-> A(TRUE, FALSE, FALSE, FALSE)], EmptyFn, NoExt)
 
 SBlocks == IF Quick THEN
   { [k |-> Blk(<<>>, Leaf, <<>>, 0, 1)],
-    [k |-> Blk(<<>>, NBody, <<>>, 1, 0), ab |-> Blk(<<>>, Leaf, <<>>, 0, 0)] }
+    [k |-> Blk(<<>>, NBody, <<>>, 2, 0), ab |-> Blk(<<>>, Leaf, <<>>, 0, 0)] }   \* min 2: one static block plus a dynamic one is enough
   ELSE
   { EmptyFn,
     [k |-> Blk(<<>>, Leaf, <<>>, 0, 1)],
     [k |-> Blk(<<>>, NBody, <<>>, 1, 0), ab |-> Blk(<<>>, Leaf, <<>>, 0, 0)],
+    [k |-> Blk(<<>>, NBody, <<>>, 2, 0)],
     [k |-> Blk(<<>>, Nil, <<>>, 0, 2)] }
 
 Exts == IF Quick THEN { NoExt, [count |-> TRUE, forEach |-> TRUE, dyn |-> TRUE] }
